@@ -133,7 +133,9 @@ def selection_law(ctx, lay, order):
         exp[tuple(range(a, b + 1))] = Fraction(k, n_frames)
     if n_frames == 0:
         exp = {(): Fraction(1)}
-    if got != exp:
+    # the code compares a double-precision uniform number with double-precision thresholds: a cell of
+    # probability 1/3 has measure 6004799503160661/2**54, not 1/3 (difference 2**-54)
+    if set(got) != set(exp) or any(abs(got[k] - exp[k]) > Fraction(1, 10**12) for k in exp):
         ctx.violation("wf-selection-law", f"layout {lay} order {order}: segments drawn {got} but expected {exp}",
                       dict(kind="select", lay=list(lay), order=list(order)))
     return nex
